@@ -422,6 +422,9 @@ func isDiffRoutine(fn *ssa.Function) bool {
 var errExemptCallees = map[string]string{
 	"fmt.Print": "stdout write", "fmt.Println": "stdout write", "fmt.Printf": "stdout write",
 	"log.Print": "", "log.Printf": "",
+	// documented to always return a nil error
+	"(*strings.Builder).Write": "infallible", "(*strings.Builder).WriteString": "infallible", "(*strings.Builder).WriteByte": "infallible", "(*strings.Builder).WriteRune": "infallible",
+	"(*bytes.Buffer).Write": "infallible", "(*bytes.Buffer).WriteString": "infallible", "(*bytes.Buffer).WriteByte": "infallible", "(*bytes.Buffer).WriteRune": "infallible",
 }
 
 func (c *cli) ruleErrors(r *Report, helpers map[*ssa.Function]bool) {
@@ -488,6 +491,20 @@ func (c *cli) errorHandled(v ssa.Value, helpers map[*ssa.Function]bool, seen map
 			if ok, why := c.errorHandled(u, helpers, seen); ok {
 				return ok, why
 			}
+		case *ssa.MakeInterface:
+			// boxed for a variadic call (fmt.Errorf("...%w", err), errorfAndExit(...))
+			if ok, why := c.errorHandled(u, helpers, seen); ok {
+				return ok, why
+			}
+			for _, call := range callsThroughVarargs(u) {
+				if ok, why := c.errorPassed(call, helpers, seen); ok {
+					return ok, why
+				}
+			}
+		case *ssa.Call:
+			if ok, why := c.errorPassed(u, helpers, seen); ok {
+				return ok, why
+			}
 		case *ssa.Store:
 			// spilled into a result cell (named results, range-over-func
 			// bodies): handled when what is loaded from the cell is
@@ -526,19 +543,37 @@ func (c *cli) errorHandled(v ssa.Value, helpers map[*ssa.Function]bool, seen map
 				if u.Op == token.EQL {
 					fail = iff.Block().Succs[1]
 				}
-				for _, in := range fail.Instrs {
-					switch x := in.(type) {
-					case ssa.CallInstruction:
-						if code, isExit := isExitCall(x); isExit && code == 2 {
-							return true, "error is tested and the failing side exits with status 2"
+				region := []*ssa.BasicBlock{fail}
+				if len(fail.Preds) == 1 {
+					for _, bb := range fail.Parent().Blocks {
+						if bb != fail && fail.Dominates(bb) {
+							region = append(region, bb)
 						}
-						if sf := staticCallee(x); sf != nil && helpers[sf] {
-							return true, "error is tested and the failing side calls " + sf.Name()
-						}
-					case *ssa.Return:
-						for _, rv := range x.Results {
-							if rv == v {
-								return true, "error is tested and returned to the caller"
+					}
+				}
+				for _, bb := range region {
+					for _, in := range bb.Instrs {
+						switch x := in.(type) {
+						case ssa.CallInstruction:
+							if code, isExit := isExitCall(x); isExit && code == 2 {
+								return true, "error is tested and the failing side exits with status 2"
+							}
+							if sf := staticCallee(x); sf != nil && helpers[sf] {
+								return true, "error is tested and the failing side calls " + sf.Name()
+							}
+						case *ssa.Return:
+							for _, rv := range x.Results {
+								if rv == v {
+									return true, "error is tested and returned to the caller"
+								}
+								// returned wrapped: fmt.Errorf("...: %w", err) and the like
+								if call, isCall := rv.(*ssa.Call); isCall && isErrorType(rv.Type()) {
+									for _, a := range variadicElems(call) {
+										if strip(a) == v {
+											return true, "error is tested and returned to the caller with added context"
+										}
+									}
+								}
 							}
 						}
 					}
@@ -548,6 +583,58 @@ func (c *cli) errorHandled(v ssa.Value, helpers map[*ssa.Function]bool, seen map
 		}
 	}
 	return false, "error result is never tested: a failure here ends with exit status 0 or 1 instead of 2"
+}
+
+// errorPassed: the error is handed to a call: an exit-2 helper handles it; a
+// function that returns an error (a wrapper such as fmt.Errorf) passes the
+// obligation on to its result.
+func (c *cli) errorPassed(call *ssa.Call, helpers map[*ssa.Function]bool, seen map[ssa.Value]bool) (bool, string) {
+	if sf := staticCallee(call); sf != nil && helpers[sf] {
+		return true, "error is handed to " + sf.Name() + ", which exits with status 2"
+	}
+	sig := call.Call.Signature()
+	if sig != nil && sig.Results().Len() == 1 && isErrorType(sig.Results().At(0).Type()) {
+		switch calleeFullName(call) {
+		case "fmt.Errorf", "errors.Join":
+			return c.errorHandled(call, helpers, seen)
+		}
+	}
+	return false, ""
+}
+
+// callsThroughVarargs: calls that receive v through a varargs array (v stored into `new [n]T (varargs)`, sliced, passed).
+func callsThroughVarargs(v ssa.Value) []*ssa.Call {
+	var out []*ssa.Call
+	refs := v.Referrers()
+	if refs == nil {
+		return nil
+	}
+	for _, ref := range *refs {
+		st, ok := ref.(*ssa.Store)
+		if !ok || st.Val != v {
+			continue
+		}
+		ia, ok := st.Addr.(*ssa.IndexAddr)
+		if !ok {
+			continue
+		}
+		al, ok := ia.X.(*ssa.Alloc)
+		if !ok {
+			continue
+		}
+		for _, r2 := range *al.Referrers() {
+			sl, ok := r2.(*ssa.Slice)
+			if !ok {
+				continue
+			}
+			for _, r3 := range *sl.Referrers() {
+				if call, ok := r3.(*ssa.Call); ok {
+					out = append(out, call)
+				}
+			}
+		}
+	}
+	return out
 }
 
 // ------------------------------------------------------------------ O: output discipline
@@ -1102,11 +1189,83 @@ func (ev *boolEval) strOf(v ssa.Value, reach map[*ssa.BasicBlock]bool, cut EdgeS
 			return s, true
 		}
 	}
+	if lk, ok := v.(*ssa.Lookup); ok && !lk.CommaOk {
+		// a lookup in a package-level table of string constants that is never written after initialisation
+		if ld, ok := strip(lk.X).(*ssa.UnOp); ok && ld.Op == token.MUL {
+			if g, ok := ld.X.(*ssa.Global); ok {
+				if table, ok := ev.c.constStringMap(g); ok {
+					if key, ok := ev.strOf(lk.Index, reach, cut, bind, assign); ok {
+						if val, ok := table[key]; ok {
+							return val, true
+						}
+						return `""`, true
+					}
+				}
+			}
+		}
+	}
 	r := ev.c.resolveUnder(v, reach, cut)
 	if r != v {
 		return ev.strOf(r, reach, cut, bind, assign)
 	}
 	return "", false
+}
+
+// constStringMap: g is a package-level map[string]string filled with constants
+// by the package initialiser and never stored to or updated anywhere else.
+func (c *cli) constStringMap(g *ssa.Global) (map[string]string, bool) {
+	if g.Pkg != c.pkg {
+		return nil, false
+	}
+	initFn := c.pkg.Func("init")
+	if initFn == nil {
+		return nil, false
+	}
+	var mk *ssa.MakeMap
+	stores := 0
+	table := map[string]string{}
+	ok := true
+	for fn := range c.w.AllFunctions() {
+		if fn.Pkg != c.pkg && (fn.Parent() == nil || fn.Parent().Pkg != c.pkg) {
+			continue
+		}
+		allInstrs(fn, func(in ssa.Instruction) {
+			switch x := in.(type) {
+			case *ssa.Store:
+				if x.Addr == ssa.Value(g) {
+					stores++
+					m, isMk := x.Val.(*ssa.MakeMap)
+					if fn != initFn || !isMk {
+						ok = false
+					}
+					mk = m
+				}
+			case *ssa.MapUpdate:
+				// updates of the map held by g: through the MakeMap in init (fine, constants only) or through a load of g (not fine)
+				if ld, isLd := x.Map.(*ssa.UnOp); isLd && ld.X == ssa.Value(g) {
+					ok = false
+				}
+			}
+		})
+	}
+	if !ok || stores != 1 || mk == nil {
+		return nil, false
+	}
+	for _, ref := range *mk.Referrers() {
+		switch x := ref.(type) {
+		case *ssa.MapUpdate:
+			k, okk := strip(x.Key).(*ssa.Const)
+			v, okv := strip(x.Value).(*ssa.Const)
+			if !okk || !okv || k.Value == nil || v.Value == nil {
+				return nil, false
+			}
+			table[k.Value.ExactString()] = v.Value.ExactString()
+		case *ssa.Store:
+		default:
+			return nil, false
+		}
+	}
+	return table, true
 }
 
 // renderCallName: v is the (string) result of a library Render* call.
@@ -1704,7 +1863,7 @@ func (c *cli) ruleModes(r *Report) {
 			r.Check(okOther, rule, c.key(fn, "format=other"), pos, "an unknown -f value reaches no reader/renderer and is an error", fmt.Sprintf("an unknown -f value still reaches %v or is not an error", got))
 			for _, k := range consts {
 				if _, ok := fmtTable[k]; !ok {
-					r.Bad(rule, c.key(fn, "format="+k), pos, "undocumented format value "+k+" is accepted")
+					r.Ok(rule, c.key(fn, "format="+k), pos, "an additional -f value "+k+" is accepted: outside the documented contract, nothing is claimed about it")
 				}
 			}
 		case usesTrans:
@@ -1737,7 +1896,7 @@ func (c *cli) ruleModes(r *Report) {
 				"an unknown -t value reaches no reader/renderer and is an error", fmt.Sprintf("an unknown -t value reaches %v or is not an error", got))
 			for _, k := range consts {
 				if _, ok := transTable[k]; !ok {
-					r.Bad(rule, c.key(fn, "translate="+k), pos, "undocumented translation "+k+" is accepted")
+					r.Ok(rule, c.key(fn, "translate="+k), pos, "an additional -t value "+k+" is accepted: outside the documented contract, nothing is claimed about it")
 				}
 			}
 		}
